@@ -70,7 +70,7 @@ where
     if let Some(comment) = comment {
         // a carriage return ends a line too (and is not allowed inside a doc comment)
         for line in comment.split(['\n', '\r']) {
-            writeln!(writer, "/// {line}")?;
+            writeln!(writer, "/// {}", doc_comment_text(line))?;
         }
     }
 
@@ -143,7 +143,7 @@ where
     if let Some(comment) = comment {
         // a carriage return ends a line too (and is not allowed inside a doc comment)
         for line in comment.split(['\n', '\r']) {
-            writeln!(writer, "/// {line}")?;
+            writeln!(writer, "/// {}", doc_comment_text(line))?;
         }
     }
 
@@ -264,4 +264,15 @@ mod tests {
         }
         .into()
     }
+}
+
+/// Documentation text as it may stand in a `///` comment: the Unicode controls that change the
+/// visible direction of text are denied by rustc there, so they are shown as escapes.
+fn doc_comment_text(line: &str) -> String {
+    line.chars()
+        .map(|c| match c {
+            '\u{202A}'..='\u{202E}' | '\u{2066}'..='\u{2069}' => c.escape_unicode().to_string(),
+            c => c.to_string(),
+        })
+        .collect()
 }
